@@ -61,9 +61,13 @@ func drawTelemetry(c *choice.Stream, cf *Conf) *SPacket {
 	rev := cf.Negotiated()
 	switch c.Draw("tele.kind", 5) {
 	case 0:
-		return &SPacket{Kind: "progress", Prog: refproto.Progress{Rows: uint64(c.Draw("p.rows", 1000)), Bytes: uint64(c.Draw("p.bytes", 100000)), TotalRows: 5, WroteRows: 1, WroteBytes: 2, ElapsedNs: 12345}}
+		pick := func(label string) uint64 {
+			return []uint64{0, 0, 1, 127, 128, 300, 1 << 40}[c.Draw(label, 7)]
+		}
+		// every field independently zero or not: keep-alives, TotalRows-only, Wrote*-only packets are all legal
+		return &SPacket{Kind: "progress", Prog: refproto.Progress{Rows: pick("p.rows"), Bytes: pick("p.bytes"), TotalRows: pick("p.total"), WroteRows: pick("p.wrows"), WroteBytes: pick("p.wbytes"), ElapsedNs: pick("p.ns")}}
 	case 1:
-		return &SPacket{Kind: "profile", Prof: refproto.Profile{Rows: 3, Blocks: 1, Bytes: 300, AppliedLimit: c.Bool("p.limit", 1, 2), RowsBeforeLimit: 9, CalcRowsBeforeLimit: true}}
+		return &SPacket{Kind: "profile", Prof: refproto.Profile{Rows: uint64(c.Pick("pf.rows", 0, 3, 200)), Blocks: uint64(c.Pick("pf.blocks", 0, 1)), Bytes: uint64(c.Pick("pf.bytes", 0, 300, 70000)), AppliedLimit: c.Bool("p.limit", 1, 2), RowsBeforeLimit: uint64(c.Pick("pf.rbl", 0, 9)), CalcRowsBeforeLimit: c.Bool("p.calc", 1, 2)}}
 	case 2:
 		if rev >= refproto.RevProfileEvents {
 			n := c.Range("ev.n", 1, 3)
@@ -364,11 +368,21 @@ func c04Run(t *testing.T, c *choice.Stream, r *Result, opt RunOpt, forced *c04Fo
 		}
 		switch map[bool]string{true: "forced", false: faultName}[forced != nil] {
 		case "cut_fin", "cut_rst":
+			if c.Bool("cut.with-exception", 1, 4) {
+				// the response ends in a server exception (legal), and the transport
+				// fault may land before, inside or after that packet
+				p := qStart + 1 + c.Draw("cut.exc.pos", len(script)-qStart-1)
+				ns := append([]simnet.Step{}, script[:p]...)
+				script = append(ns, simnet.Step{Label: "exception", Send: (&SPacket{Kind: "exception", Exc: DrawExceptionChain(c)}).Encode(cf)})
+			}
 			total := 0
 			for _, s := range script[qStart:] {
 				total += len(s.Send)
 			}
 			cutK = c.Draw("cut.k", total+1)
+			if c.Bool("cut.tail", 1, 3) && total > 0 {
+				cutK = total - c.Draw("cut.k.tail", min(total, 40)) // near the end: inside the last packets
+			}
 		case "write_err":
 			werrK = c.Draw("werr.k", 400)
 			if c.Bool("werr.big", 1, 4) {
@@ -402,6 +416,9 @@ func c04Run(t *testing.T, c *choice.Stream, r *Result, opt RunOpt, forced *c04Fo
 		srv := simnet.NewServer(cf.ServerRev, script)
 		srv.Auto = autoResponder(cf)
 		conn := e.W.NewConn(srv)
+		if c.Bool("backpressure", 1, 4) {
+			conn.Window = c.Pick("window", 8, 64, 512) // the sender may be blocked inside Write when the fault lands
+		}
 		r.Cell = fmt.Sprintf("%s/%s/comp%d", sc.kind, faultName, cf.Comp)
 		r.Sample = map[string]any{"kind": sc.kind, "fault": faultName, "client_rev": cf.ClientRev, "server_rev": cf.ServerRev, "compression": cf.Comp.String(),
 			"cols": colNames(sc.cols), "cut_k": cutK, "write_err_k": werrK, "fail_at": sc.rec.FailAt, "script": scriptLabels(script), "strategy": e.Sim.Strategy, "deliver": e.W.DeliverMode}
@@ -513,6 +530,13 @@ func checkAfterFailure(e *Env, r *Result, cf *Conf, cl *ch.Client, conn *simnet.
 	perr := cl.Ping(ctx)
 	got := conn.OutCopy()[mark:]
 	transport := faultName == "cut_fin" || faultName == "cut_rst" || faultName == "write_err"
+	if transport && !ch.IsException(derr) {
+		// The query did not end with a complete server exception, so it ended in
+		// the middle of the exchange: a stream that broke inside a packet (either
+		// direction) cannot be at a packet boundary, and the client may not stay open.
+		r.Violate("open-not-at-boundary", "open-after-transport-failure:"+faultName, "the connection failed during the query (%s) and Do returned %q, which is not a server exception, yet the client was left open", faultName, derr)
+		return
+	}
 	if transport && len(got) == 0 && perr != nil {
 		// the connection is dead and nothing reached the wire: nothing to hold against the client
 		r.Probe("open_on_dead_conn")
